@@ -36,10 +36,11 @@ func init() {
 
 // execSpec is one execution: a program (script or file project) on its own disk.
 type execSpec struct {
-	ID    string            `json:"id"`
-	Mode  string            `json:"mode"` // script | file
-	Main  string            `json:"main"`
-	Files map[string]string `json:"files,omitempty"`
+	ID       string            `json:"id"`
+	Mode     string            `json:"mode"` // script | file
+	Main     string            `json:"main"`
+	Files    map[string]string `json:"files,omitempty"`
+	VarInput string            `json:"var_input,omitempty"` // evaluated by ExecVarInputText before the execution
 }
 
 func runSpec(w *zsim.World, in *exec.Interpreter, sp *execSpec) ExecResult {
@@ -47,11 +48,23 @@ func runSpec(w *zsim.World, in *exec.Interpreter, sp *execSpec) ExecResult {
 	for p, s := range sp.Files {
 		d.Put(p, []byte(s))
 	}
+	var inputs map[string]rElement
+	if sp.VarInput != "" {
+		var res ExecResult
+		res = execute(w, func() (rElement, error) {
+			m, err := exec.ExecVarInputText(sp.VarInput)
+			inputs = m
+			return strResult("inputs"), err
+		})
+		if res.Err != "" || res.Panic != "" {
+			return res
+		}
+	}
 	if sp.Mode == "file" {
 		d.Put("/proj/main.zn", []byte(sp.Main))
-		return runFile(w, in, "/proj/main.zn", nil)
+		return runFile(w, in, "/proj/main.zn", inputs)
 	}
-	return runScript(w, in, sp.Main, nil)
+	return runScript(w, in, sp.Main, inputs)
 }
 
 // histSpec is a whole history: executions 0..n-1 are polluters, the last one is the victim.
@@ -144,7 +157,9 @@ func c16ModuleProject(variant int) *execSpec {
 func c16Polluter(t *zsim.Tape) *execSpec {
 	gs := c16Globals()
 	guard := "\n\n拦截异常：\n\t输出“挡住”\n"
-	switch t.Draw(13) {
+	switch t.Draw(14) {
+	case 13: // the input-variable text is evaluated against predefined values too
+		return &execSpec{ID: "varinput-mutates", Mode: "script", VarInput: pick(t, []string{"甲 = 以数值（自增：4）", "甲 = 以数值（自减：1）", "甲 = 数值"}), Main: "输入甲\n令乙 = 以甲（自增：2）\n输出“污染者结束”" + guard}
 	case 11, 12: // every mutating method x every property of a fresh object of a library class (also via a local copy / an item)
 		m := c16Mutators[t.Draw(len(c16Mutators))]
 		args := []string{"", "：1", "：3、2", "：“x”", "：“k”、5"}[t.Draw(5)]
@@ -190,7 +205,9 @@ func c16Polluter(t *zsim.Tape) *execSpec {
 // victim draws a program from the fixed battery that reads predefined state.
 func c16Victim(t *zsim.Tape) *execSpec {
 	gs := c16Globals()
-	switch t.Draw(11) {
+	switch t.Draw(12) {
+	case 11: // predefined values as seen by the input-variable text
+		return &execSpec{ID: "varinput-reads", Mode: "script", VarInput: "甲 = 数值\n乙 = 以数值（加：1）", Main: "输入甲、乙\n（显示：甲、乙）\n输出“输入完”\n"}
 	case 10: // default property values of a library class
 		return &execSpec{ID: "library-object-defaults", Mode: "script", Main: "导入《@探针》\n\n令物 = （新建探针箱）\n（显示：物 之 文、物 之 数、物 之 表、物 之 典）\n输出“默认值完”\n"}
 	case 9: // a class exported by a registered library
@@ -268,7 +285,7 @@ func c16EnumPolluters() []*execSpec {
 	return out
 }
 
-const c16Victims = 11
+const c16Victims = 12
 
 func c16PartA(t *zsim.Tape, cfg *hlib.Config) *hlib.Outcome {
 	sc := &c16Scenario{Part: "A:history"}
